@@ -1,78 +1,148 @@
 """C41 — the hy command (thin: option termination, action selection order, sys.argv per mode)."""
 import ast
 
-from .. import pyq
-from ..pysrc import dotted, fold, norm
+from .. import pm, pyq
+from ..pysrc import Unfoldable, dotted, fold, norm, stmt_of
 
+CANON = True
 REL = "hy/cmdline.py"
+
+ACTIONS = ("eval_string", "run_module", "run_script_stdin", "run_script_file", "just_repl")
+
+
+def _option_table(f):
+    """dict(name=[...], ...) entries of the option table, wherever it is bound."""
+    out = []
+    for n in ast.walk(f):
+        if isinstance(n, ast.Call) and dotted(n.func) == "dict" and any(k.arg == "name" for k in n.keywords):
+            kw = {k.arg: k.value for k in n.keywords}
+            try:
+                names = fold(kw["name"])
+            except Unfoldable:
+                continue
+            out.append((names, kw, n))
+    return out
 
 
 def check(ctx, src):
-    ctx.rule("CMD-TERMINATE", "exactly -c and -m carry `terminate` and take an argument; proc_opt returns 'terminate' for them and both option loops stop on it; the first non-option is put back and ends option processing; `--` ends it too")
+    ctx.rule("CMD-TERMINATE", "exactly -c and -m carry `terminate` and take an argument; proc_opt returns 'terminate' for them and every call of proc_opt in the option loop leaves the loop on that result; "
+             "the first non-option is put back and ends option processing; `--` ends it too")
     ctx.rule("CMD-OPTARG", "an option's argument is the rest of its own word when there is one (`-cCODE`, `-c=CODE`), otherwise the next word")
     ctx.rule("CMD-ACTION", "the action is chosen in this order: -c, -m, `-` (stdin), file, REPL/stdin — so arguments after -c / -m are never interpreted")
     ctx.rule("CMD-ARGV", "in every mode sys.argv is assigned, with the documented first element, before the program runs")
     m = src.py(REL)
     f = m.func("cmdline_handler")
     ctx.require(f is not None, "cmdline_handler not found")
-    defs = pyq.contains(f, lambda n: isinstance(n, ast.Assign) and norm(n.targets[0]) == "defs" and isinstance(n.value, ast.List))
-    ctx.require(defs is not None, "option table not found")
-    term, dest = [], []
-    for d in defs.value.elts:
-        kw = {k.arg: k.value for k in d.keywords}
-        names = fold(kw["name"])
-        if "terminate" in kw and getattr(kw["terminate"], "value", None) is True:
-            term.append((names, getattr(kw.get("dest"), "value", None)))
-        if "dest" in kw:
-            dest.append(names[0])
-    ctx.check(sorted(term) == [(["-c"], "command"), (["-m"], "mod")], "CMD-TERMINATE", f"{REL}|defs|terminate", f"options with terminate are {term}", REL, defs.lineno,
+    table = _option_table(f)
+    ctx.require(len(table) >= 8, "option table not found")
+    term = sorted((names, getattr(kw.get("dest"), "value", None)) for names, kw, _ in table if getattr(kw.get("terminate"), "value", None) is True)
+    ctx.check(term == [(["-c"], "command"), (["-m"], "mod")], "CMD-TERMINATE", f"{REL}|defs|terminate", f"options with terminate are {term}", REL, table[0][2].lineno,
               witness="hy -c CODE -i: -i is read as a hy option instead of being passed to the program", detail="-c (command), -m (mod)")
     po = m.func("cmdline_handler.proc_opt")
     ctx.require(po is not None, "proc_opt not found")
-    t = " ".join(ast.unparse(po).split())
-    ctx.check("if 'terminate' in match: return 'terminate'" in t and t.rstrip().endswith("return 'dest' in match"), "CMD-TERMINATE", f"{REL}|proc_opt|returns", "proc_opt must return 'terminate' for terminating options and otherwise whether an argument was taken", REL, po.lineno, detail="'terminate' / has-dest")
-    ctx.check("if arg: pass elif i is not None and i + 1 < len(item): arg = item[i + 1 + (item[i + 1] == '='):] elif argv: arg = argv.pop(0) else: err(" in t, "CMD-OPTARG", f"{REL}|proc_opt|argument source",
+    # proc_opt: `return 'terminate'` exactly under a test of 'terminate' in the matched definition; otherwise whether an argument was taken
+    rets = [n for n in ast.walk(po) if isinstance(n, ast.Return)]
+    rt = [r for r in rets if isinstance(r.value, ast.Constant) and r.value.value == "terminate"]
+    ok = len(rt) == 1 and any("'terminate' in" in str(g) for g in pyq.guard_texts(rt[0], po)) and len(pyq.guards(rt[0], po)) == 1
+    other = [r for r in rets if r not in rt]
+    ok = ok and len(other) == 1 and norm(other[0].value) == "'dest' in match"
+    ctx.check(ok, "CMD-TERMINATE", f"{REL}|proc_opt|returns", "proc_opt must return 'terminate' for terminating options and otherwise whether an argument was taken", REL, po.lineno, detail="'terminate' / has-dest")
+    src_ok = pm.find(po, "if arg:\n    pass\nelif i is not None and i + 1 < len(item):\n    arg = item[i + 1 + (item[i + 1] == '='):]\nelif argv:\n    arg = argv.pop(0)\nelse:\n    err(__, opt)") is not None
+    ctx.check(src_ok, "CMD-OPTARG", f"{REL}|proc_opt|argument source",
               "an option's argument must be: the given one, else the rest of the word after the option letter (minus one '='), else the next word", REL, po.lineno,
               witness="hy -Bc CODE ARGS takes an empty command and passes CODE to the program", detail="arg | item[i+1…] | argv.pop(0)")
-    loop = next((n for n in f.body if isinstance(n, ast.While) and norm(n.test) == "argv"), None)
+    loop = next((n for n in f.body if isinstance(n, ast.While) and any(isinstance(c, ast.Call) and dotted(c.func) == "proc_opt" for c in ast.walk(n))), None)
     ctx.require(loop is not None, "option loop not found")
-    t = " ".join(ast.unparse(loop).split())
-    ctx.check("item = argv.pop(0) if item == '--': break" in t, "CMD-TERMINATE", f"{REL}|loop|double dash", "`--` must end option processing", REL, loop.lineno, detail="break")
-    ctx.check("if proc_opt(opt, arg=arg) == 'terminate': break" in t, "CMD-TERMINATE", f"{REL}|loop|long option", "a terminating long option must end option processing", REL, loop.lineno, detail="break")
-    ctx.check("for i in range(1, len(item)): x = proc_opt('-' + item[i], item=item, i=i) if x: break if x == 'terminate': break" in t, "CMD-TERMINATE", f"{REL}|loop|short options",
-              "in a cluster of short options, an option that takes an argument ends the cluster and a terminating one ends option processing", REL, loop.lineno, detail="inner break on argument; outer break on terminate")
-    ctx.check("else: argv.insert(0, item) break" in t and "elif item.startswith('-') and item != '-':" in t, "CMD-TERMINATE", f"{REL}|loop|first non-option", "the first non-option (including a lone `-`) must be put back and end option processing", REL, loop.lineno, detail="insert back; break")
-    # --- action selection order
-    act = pyq.contains(f, lambda n: isinstance(n, ast.Assign) and norm(n.targets[0]) in ("(action, action_arg)", "action, action_arg"))
-    ctx.require(act is not None, "action selection not found")
-    order = []
-    e = act.value
-    while isinstance(e, ast.IfExp):
-        order.append((norm(e.test), fold(e.body.elts[0]) if isinstance(e.body, ast.List) else None))
-        e = e.orelse
-    order.append(("else", fold(e.elts[0]) if isinstance(e, ast.List) else None))
-    want = [("'command' in options", "eval_string"), ("'mod' in options", "run_module"), ("argv and argv[0] == '-'", "run_script_stdin"), ("argv", "run_script_file"), ("sys.stdin.isatty()", "just_repl"), ("else", "run_script_stdin")]
-    ctx.check(order == want, "CMD-ACTION", f"{REL}|action order", f"actions are selected as {order}", REL, act.lineno, witness="hy -c CODE - x reads the program from stdin and ignores CODE", detail=str([a for _, a in want]))
+    # every proc_opt call in the loop: its result reaches a comparison with 'terminate' that breaks out of the while loop
+    calls = [c for c in ast.walk(loop) if isinstance(c, ast.Call) and dotted(c.func) == "proc_opt"]
+    breaks = []
+    for n in ast.walk(loop):
+        if isinstance(n, ast.If) and any(isinstance(b, ast.Break) for b in n.body) and _loop_of(n.body[-1] if isinstance(n.body[-1], ast.Break) else n, loop) is loop:
+            for c in ast.walk(n.test):
+                if isinstance(c, ast.Compare) and isinstance(c.ops[0], ast.Eq) and isinstance(c.comparators[0], ast.Constant) and c.comparators[0].value == "terminate":
+                    breaks.append(c.left)
+    for c in calls:
+        via = None
+        st = stmt_of(c)
+        if any(b is c for b in breaks):
+            via = "direct"
+        elif isinstance(st, ast.Assign) and isinstance(st.targets[0], ast.Name) and any(isinstance(b, ast.Name) and b.id == st.targets[0].id for b in breaks):
+            via = st.targets[0].id
+        long_opt = not any(k.arg == "item" for k in c.keywords)
+        ctx.check(via is not None, "CMD-TERMINATE", f"{REL}|loop|{'long option' if long_opt else 'short options'}", "the result of proc_opt is not tested against 'terminate' to leave the option loop", REL, c.lineno,
+                  witness="hy -m mod -i: -i is taken by hy", detail=f"break on terminate ({via})")
+    ctx.require(len(calls) >= 2, "proc_opt call sites in the option loop not found")
+    inner = next((n for n in ast.walk(loop) if isinstance(n, ast.For) and any(c in list(ast.walk(n)) for c in calls)), None)
+    if inner is not None:
+        c = next(c for c in calls if c in list(ast.walk(inner)))
+        st = stmt_of(c)
+        v = st.targets[0].id if isinstance(st, ast.Assign) and isinstance(st.targets[0], ast.Name) else None
+        ok = v is not None and any(isinstance(n, ast.If) and isinstance(n.test, ast.Name) and n.test.id == v and isinstance(n.body[-1], ast.Break) for n in inner.body)
+        ctx.check(ok, "CMD-TERMINATE", f"{REL}|loop|cluster", "in a cluster of short options, an option that takes an argument ends the cluster", REL, inner.lineno, detail="inner break on argument")
+    dd = pm.find(loop, "if item == '--':\n    break")
+    ctx.check(dd is not None and _loop_of(dd.body[-1], loop) is loop, "CMD-TERMINATE", f"{REL}|loop|double dash", "`--` must end option processing", REL, loop.lineno, detail="break")
+    back = pm.find(loop, "argv.insert(0, item)\nbreak")
+    gt = pyq.guard_texts(back, loop) if back is not None else []
+    ctx.check(back is not None and any(g == "not item.startswith('-') or item == '-'" for g in gt), "CMD-TERMINATE", f"{REL}|loop|first non-option",
+              f"the first non-option (including a lone `-`) must be put back and end option processing (guards: {[str(g) for g in gt]})", REL, loop.lineno, detail="insert back; break")
+    # --- action selection order: path condition of every assignment of an action constant
+    sel = []
+    for n in ast.walk(f):
+        if isinstance(n, ast.Assign) and isinstance(n.value, (ast.List, ast.Tuple)) and n.value.elts and isinstance(n.value.elts[0], ast.Constant) and n.value.elts[0].value in ACTIONS \
+                and m.enclosing_func(n) is f:
+            sel.append((n.value.elts[0].value, pyq.guard_texts(n, f), n))
+    ctx.require(len(sel) >= 5, "action selection not found")
+    C, M, D, A, T = "'command' in options", "'mod' in options", "argv and argv[0] == '-'", "argv", "sys.stdin.isatty()"
+    nC, nM, nD, nA, nT = "'command' not in options", "'mod' not in options", "not argv or argv[0] != '-'", "not argv", "not sys.stdin.isatty()"
+    want = [("eval_string", (C,)), ("run_module", (nC, M)), ("run_script_stdin", (nC, nM, D)), ("run_script_file", (nC, nM, nD, A)), ("just_repl", (nC, nM, nD, nA, T)),
+            ("run_script_stdin", (nC, nM, nD, nA, nT))]
+
+    def same(g, w):
+        return len(g) == len(w) and all(x == y for x, y in zip(g, w))
+
+    extra = [(a, [str(x) for x in g]) for a, g, _ in sel if not any(a == wa and same(g, w) for wa, w in want)]
+    missing = [(wa, w) for wa, w in want if not any(a == wa and same(g, w) for a, g, _ in sel)]
+    ctx.check(not extra and not missing, "CMD-ACTION", f"{REL}|action order", f"actions are selected under {extra}; missing {missing}", REL, sel[0][2].lineno,
+              witness="hy -c CODE - x reads the program from stdin and ignores CODE", detail="-c, -m, -, file, repl|stdin")
     # --- sys.argv per mode
-    chain = next((n for n in f.body if isinstance(n, ast.If) and norm(n.test) == "action == 'eval_string'"), None)
-    ctx.require(chain is not None, "action dispatch not found")
     want_argv = {"eval_string": "['-c'] + argv", "run_module": "[program] + argv", "run_script_stdin": "argv", "run_script_file": "argv"}
     runners = {"eval_string": "run_command", "run_module": "runpy.run_module", "run_script_stdin": "run_command", "run_script_file": "runhy.run_path"}
-    n = chain
-    while isinstance(n, ast.If):
-        mode = fold(n.test.comparators[0]) if isinstance(n.test, ast.Compare) else None
-        if mode in want_argv:
-            asg = next((s for s in n.body if isinstance(s, ast.Assign) and norm(s.targets[0]) == "sys.argv"), None)
-            run = pyq.contains(n.body, lambda x: isinstance(x, ast.Call) and dotted(x.func) == runners[mode])
-            ok = asg is not None and norm(asg.value) == want_argv[mode] and run is not None and asg.lineno < run.lineno
-            ctx.check(ok, "CMD-ARGV", f"{REL}|{mode}|sys.argv", f"in mode {mode} sys.argv must be set to `{want_argv[mode]}` before {runners[mode]} runs (found `{norm(asg.value) if asg else None}`)", REL, n.lineno,
-                      witness="the program sees hy's own options in sys.argv", detail=want_argv[mode])
-        n = n.orelse[0] if n.orelse and isinstance(n.orelse[0], ast.If) else None
-    prog = pyq.contains(f, lambda n: isinstance(n, ast.Assign) and norm(n) == "program = argv[0]")
-    rest = pyq.contains(f, lambda n: isinstance(n, ast.Assign) and norm(n) == "argv = list(argv[1:])")
-    ctx.check(prog is not None and rest is not None and prog.lineno < rest.lineno, "CMD-ARGV", f"{REL}|program name", "the program name must be split off before options are processed", REL, f.lineno, detail="program = argv[0]; argv = argv[1:]")
+    seen = set()
+    tgt = sel[0][2].targets[0]
+    action_var = tgt.elts[0].id if isinstance(tgt, (ast.Tuple, ast.List)) and isinstance(tgt.elts[0], ast.Name) else tgt.id if isinstance(tgt, ast.Name) else None
+    for n in ast.walk(f):
+        if isinstance(n, ast.If) and isinstance(n.test, ast.Compare) and isinstance(n.test.left, ast.Name) and n.test.left.id == action_var and isinstance(n.test.ops[0], ast.Eq) and m.enclosing_func(n) is f:
+            mode = fold(n.test.comparators[0]) if isinstance(n.test.comparators[0], ast.Constant) else None
+            if mode in want_argv and mode not in seen:
+                seen.add(mode)
+                asg = next((s for s in ast.walk(n) if isinstance(s, ast.Assign) and dotted(s.targets[0]) == "sys.argv" and s in _own(n.body)), None)
+                run = pyq.contains(n.body, lambda x: isinstance(x, ast.Call) and dotted(x.func) == runners[mode])
+                ok = asg is not None and norm(asg.value) == want_argv[mode] and run is not None and asg.lineno < run.lineno and not pyq.guards(asg, n)[1:]
+                ctx.check(ok, "CMD-ARGV", f"{REL}|{mode}|sys.argv", f"in mode {mode} sys.argv must be set to `{want_argv[mode]}` before {runners[mode]} runs (found `{norm(asg.value) if asg else None}`)", REL, n.lineno,
+                          witness="the program sees hy's own options in sys.argv", detail=want_argv[mode])
+    ctx.require(len(seen) == 4, f"action dispatch not found for {sorted(set(want_argv) - seen)}")
+    prog = pm.find(f, "program = argv[0]")
+    rest = pm.find(f, "argv = list(argv[1:])")
+    ctx.check(prog is not None and rest is not None and prog.lineno < rest.lineno < loop.lineno, "CMD-ARGV", f"{REL}|program name", "the program name must be split off before options are processed", REL, f.lineno, detail="program = argv[0]; argv = argv[1:]")
     ctx.assume("equality of output and exit status across the four modes is a run-time relation and is not decided")
     ctx.floor("CMD-TERMINATE", 6)
+
+
+def _own(stmts):
+    out = []
+    for s in stmts:
+        out.extend(ast.walk(s))
+    return out
+
+
+def _loop_of(node, stop):
+    """Innermost loop statement enclosing node."""
+    n = getattr(node, "_parent", None)
+    while n is not None:
+        if isinstance(n, (ast.While, ast.For)):
+            return n
+        n = getattr(n, "_parent", None)
+    return None
 
 
 SELFTESTS = [
@@ -82,4 +152,5 @@ SELFTESTS = [
     dict(name="cluster argument", file=REL, old="            elif i is not None and i + 1 < len(item):\n                arg = item[i + 1 + (item[i + 1] == \"=\") :]", new="            elif item is not None and len(item) > 2:\n                arg = item[i + 1 :].removeprefix(\"=\")", rule="CMD-OPTARG", key="argument source"),
     dict(name="-i terminates", file=REL, old='            name=["-i"],\n            action="store_true",', new='            name=["-i"],\n            terminate=True,\n            action="store_true",', rule="CMD-TERMINATE", key="defs|terminate"),
     dict(name="argv for -m", file=REL, old="        sys.argv = [program] + argv\n", new="        sys.argv = argv\n", rule="CMD-ARGV", key="run_module"),
+    dict(name="long option does not terminate", file=REL, old='            if proc_opt(opt, arg=arg) == "terminate":\n                break', new='            proc_opt(opt, arg=arg)', rule="CMD-TERMINATE", key="long option"),
 ]
